@@ -78,6 +78,102 @@ Theorem C13_handover_ok_except_known :
       handover sv pk_addr (run validate_block apply_block (verify_commit sv) ops n) = true.
 Proof.
   intros sig sv pk vb ab Hvh ops n Hg H0 Hh.
-  exact (proj2 (run_handover sig sv pk vb ab Hvh ops n Hg (conj H0 Hh))).
+  exact (proj2 (run_handover_plus1 sig sv pk vb ab Hvh ops n Hg (conj H0 Hh))).
 Qed.
 Print Assumptions C13_handover_ok_except_known.
+
+(* ---- last clause, the hand-over itself: Reactor.SwitchToConsensus ------------------------------ *)
+
+(* The node built its consensus State at start ([new_state]: consensus.NewState on the state and
+   block store it had then; [ih] = the chain's InitialHeight >= 1) and block-synced through ANY
+   run [ops].  Then Reactor.SwitchToConsensus, called with the state after the last ApplyBlock
+   on the store the run left behind ([switch_to_consensus]: the guard "LastBlockHeight > 0" that
+   decides whether reconstructLastCommit runs, then updateToState), does not panic; the consensus
+   state it leaves is at height LastBlockHeight+1 (InitialHeight when no block was ever stored),
+   CommitRound -1, and its LastCommit is nil before the first block and otherwise exactly the
+   vote set CommitToVoteSet makes from the seen commit stored for the last block, with a +2/3
+   majority.  Holds whether nothing, exactly one block (LastBlockHeight = InitialHeight) or
+   more were synced, and whether the node started with an empty or a non-empty store.
+   Premises: as for C13_handover_ok_except_known — every saved commit outside the known-finding
+   class F31 and validator sets well-formed with validators carrying their key's address
+   ([ev_good]); ValidateBlock accepts only the block of the next height (InitialHeight when the
+   state has no block yet); the starting state is at 0 or at/above InitialHeight. *)
+Theorem C13_switch_to_consensus_ok_except_known :
+  forall (sig : Type) (sv : key -> signmsg -> sig -> bool) (pk_addr : key -> addr)
+         (validate_block : sstate -> block sig -> bool)
+         (apply_block : sstate -> block sig -> option (list validator * Z))
+         (ih : Z),
+    1 <= ih ->
+    (forall st b, validate_block st b = true -> b_height b = next_height ih st) ->
+    forall (ops : list (op sig)) (n : node sig) (cs0 : cstate),
+      let n' := run validate_block apply_block (verify_commit sv) ops n in
+      Forall (ev_good sig pk_addr) (n_log n') ->
+      0 <= st_height (n_state n) ->
+      (st_height (n_state n) = 0 \/ ih <= st_height (n_state n)) ->
+      new_state sv pk_addr ih (n_store n) (n_state n) = Some cs0 ->
+      exists cs',
+        switch_to_consensus sv pk_addr ih (n_store n') cs0 (n_state n') = Some cs' /\
+        cs_height cs' = next_height ih (n_state n') /\
+        cs_commit_round cs' = -1 /\
+        (st_height (n_state n') = 0 -> cs_last_commit cs' = None) /\
+        (0 < st_height (n_state n') ->
+         exists c vs,
+           load_seen (n_store n') (st_height (n_state n')) = Some c /\
+           commit_to_voteset sv pk_addr (st_chain (n_state n')) c (st_last_vals (n_state n')) = Some vs /\
+           vs_maj23 vs <> None /\ cs_last_commit cs' = Some vs).
+Proof.
+  intros sig sv pk vb ab ih Hih Hvn ops n cs0 n' Hg H0 Hst Hns.
+  exact (run_switch sig sv pk vb ab ih Hih Hvn ops n cs0 Hg H0 Hst Hns).
+Qed.
+Print Assumptions C13_switch_to_consensus_ok_except_known.
+
+(* Non-vacuity: a chain with InitialHeight 5, three validators of power 10; a fresh node (empty
+   store, state at 0) receives blocks 5 and 6 from peer 1 and syncs exactly ONE block
+   (LastBlockHeight = InitialHeight).  The premises hold and the switch yields height 6 with a
+   LastCommit. *)
+Definition ex_pk (k : key) : addr := k + 1.
+Definition ex_vals : list validator :=
+  [ {| v_addr := 1; v_key := 0; v_power := 10 |}; {| v_addr := 2; v_key := 1; v_power := 10 |};
+    {| v_addr := 3; v_key := 2; v_power := 10 |} ].
+Definition ex_commit (h bid : Z) : commit isig :=
+  {| c_height := h; c_round := 0; c_bid := bid;
+     c_sigs := map (fun k => {| cs_flag := block_id_flag_commit; cs_addr := k + 1; cs_ts := 7;
+                                cs_sig := Signed k (sign_msg 1 h 0 bid 7) |}) [0; 1; 2] |}.
+Definition ex_b5 : block isig :=
+  {| b_height := 5; b_id := 55; b_last_commit := {| c_height := 0; c_round := 0; c_bid := 0; c_sigs := [] |};
+     b_tag := 0 |}.
+Definition ex_b6 : block isig :=
+  {| b_height := 6; b_id := 66; b_last_commit := ex_commit 5 55; b_tag := 0 |}.
+Definition ex_n0 : node isig :=
+  {| n_state := {| st_chain := 1; st_height := 0; st_vals := ex_vals; st_last_vals := []; st_tag := 0 |};
+     n_store := []; n_pool := new_pool isig 5; n_stopped := []; n_log := []; n_panicked := false |}.
+Definition ex_ops : list (op isig) :=
+  [ OStatus 1 5 6; OMakeRequester; OMakeRequester; OPick 5 1; OPick 6 1; OBlock 1 ex_b5; OBlock 1 ex_b6;
+    OProcess ].
+Definition ex_vb (st : sstate) (b : block isig) : bool := b_height b =? next_height 5 st.
+Definition ex_ab (st : sstate) (b : block isig) : option (list validator * Z) := Some (st_vals st, 0).
+
+Example C13_switch_to_consensus_nonvacuous :
+  let n' := run ex_vb ex_ab (verify_commit ideal_verify) ex_ops ex_n0 in
+  (forall st b, ex_vb st b = true -> b_height b = next_height 5 st) /\
+  st_height (n_state n') = 5 /\ List.length (n_store n') = 1%nat /\
+  Forall (ev_good isig ex_pk) (n_log n') /\
+  exists cs0 cs',
+    new_state ideal_verify ex_pk 5 (n_store ex_n0) (n_state ex_n0) = Some cs0 /\
+    switch_to_consensus ideal_verify ex_pk 5 (n_store n') cs0 (n_state n') = Some cs' /\
+    cs_height cs' = 6 /\ cs_last_commit cs' <> None.
+Proof.
+  cbv zeta. split; [intros st b H; apply Z.eqb_eq; exact H|].
+  split; [vm_compute; reflexivity|]. split; [vm_compute; reflexivity|].
+  split.
+  - assert (E : n_log (run ex_vb ex_ab (verify_commit ideal_verify) ex_ops ex_n0) =
+                [E_saved (n_state ex_n0) ex_b5 ex_b6]) by (vm_compute; reflexivity).
+    rewrite E. constructor; [|constructor].
+    cbn [ev_good n_state ex_n0 st_vals b_last_commit ex_b6 c_sigs ex_commit map].
+    split; [|split].
+    + split; [repeat constructor; discriminate | vm_compute; discriminate].
+    + repeat constructor; discriminate.
+    + unfold addrs_ok. cbn [combine ex_vals]. repeat (constructor; [right; reflexivity|]). constructor.
+  - eexists. eexists. split; [vm_compute; reflexivity|]. split; [vm_compute; reflexivity|].
+    split; [reflexivity | discriminate].
+Qed.
